@@ -123,3 +123,152 @@ Proof.
   rewrite (int_atom_small lhs La), (int_atom_small rhs Lb). cbn [bind].
   replace (Z.of_N rhs <? Z.of_N lhs)%Z with (rhs <? lhs) by lia. reflexivity.
 Qed.
+
+
+(* ---------------------------------------------------------------- op_sha256 *)
+Lemma op_sha256_none H f tb m :
+  op_sha256 H f (Atom tb) m = let '(base, _, _) := sha256_costs f in atom_and_cost base (H []).
+Proof. unfold op_sha256, sha256_costs. destruct (f_new_cost_model f); timeout 20 reflexivity. Qed.
+
+Lemma len_for_value_lt37 v : v < 37 -> len_for_value v = if 0 <? v then 1 else 0.
+Proof. intros Hv. unfold len_for_value.
+  destruct (N.eqb_spec v 0); [subst; reflexivity|].
+  destruct (N.ltb_spec v 128); [|lia]. destruct (N.ltb_spec 0 v); [reflexivity|lia]. Qed.
+Lemma op_sha256_two H f b0 b1 tb m :
+  op_sha256 H f (Cons (Atom b0) (Cons (Atom b1) (Atom tb))) m =
+  let '(base, per_arg, per_byte) := sha256_costs f in
+  let c1 := base + per_arg + blen b0 * per_byte in
+  do _ <- check_cost c1 m;
+  let c2 := c1 + per_arg + blen b1 * per_byte in
+  do _ <- check_cost c2 m;
+  atom_and_cost c2 (H (b0 ++ b1)).
+Proof.
+  unfold op_sha256, sha256_costs.
+  destruct (f_new_cost_model f); cbn beta iota zeta delta [bind];
+    (match goal with |- context [check_cost ?c m] => destruct (check_cost c m) as [[]|e] end;
+     cbn [bind]; [|reflexivity]);
+    (match goal with |- context [check_cost ?c m] => destruct (check_cost c m) as [[]|e] end;
+     cbn [bind]; [|reflexivity]);
+    unfold concat_rev; cbn [fold_left]; rewrite app_nil_r; reflexivity.
+Qed.
+
+Lemma table_len_N : N.of_nat (length HashTable.precomputed_hashes) = 37.
+Proof. reflexivity. Qed.
+
+Section Sha.
+  Variable H : bytes -> bytes.
+  Hypothesis H_nil : H [] = src_sha256_nil_literal.
+  Hypothesis H_tbl : forall i h, nth_error HashTable.precomputed_hashes i = Some h ->
+    h = H (1 :: bytes_of_int (Z.of_N (N.of_nat i))).
+
+  Lemma nofast_sha256_gen f i m : op_sha256_nofast H f i m = op_sha256 H f (denote_input i) m.
+  Proof.
+    unfold op_sha256_nofast. destruct (sha256_costs f) as [[base per_arg] per_byte] eqn:EC.
+    destruct (r_is_nil_ptr i) eqn:EN; [|reflexivity].
+    destruct i as [[|a l] [v|b]]; try discriminate. cbn [r_is_nil_ptr] in EN.
+    assert (v = 0) as -> by lia.
+    change (denote_input ([], TSmall 0)) with (Atom []).
+    rewrite op_sha256_none, EC, H_nil. reflexivity.
+  Qed.
+
+  Lemma fast_sha256_gen f i m : rinput_ok i = true ->
+    op_sha256_fast H f i m = op_sha256 H f (denote_input i) m.
+  Proof.
+    intros Hok. rewrite <- nofast_sha256_gen.
+    unfold op_sha256_fast, op_sha256_nofast.
+    destruct (sha256_costs f) as [[base per_arg] per_byte] eqn:EC.
+    destruct (r_is_nil_ptr i) eqn:EN; [reflexivity|].
+    destruct i as [l t]. apply rinput_ok_args in Hok. unfold r_match_args2. cbn [fst].
+    destruct l as [|a [|b [|c l]]]; try reflexivity.
+    rewrite !forallb_cons in Hok. apply andb_prop in Hok. destruct Hok as [Ha Hb].
+    apply andb_prop in Hb. destruct Hb as [Hb _].
+    destruct (r_small_number a) as [one|] eqn:Sa; [|reflexivity].
+    destruct (N.eqb_spec one 1) as [E1|E1]; [subst one|reflexivity].
+    destruct (r_small_number b) as [val|] eqn:Sb; [|reflexivity].
+    rewrite table_len_N.
+    destruct (N.ltb_spec val 37) as [Hv|Hv]; [|reflexivity].
+    destruct (r_small_number_some a 1 Ha Sa) as [Da _].
+    destruct (r_small_number_some b val Hb Sb) as [Db Lb].
+    destruct (denote_term_atom t) as [tb Ht].
+    rewrite !denote_input_cons, denote_input_nil, Da, Db, Ht.
+    change (bytes_of_int (Z.of_N 1)) with [1].
+    rewrite op_sha256_two, EC. cbn beta iota zeta.
+    rewrite (blen_small val Lb), (len_for_value_lt37 val Hv).
+    change (blen [1]) with 1.
+    destruct (nth_error HashTable.precomputed_hashes (N.to_nat val)) as [h|] eqn:En.
+    - apply H_tbl in En. rewrite Nnat.N2Nat.id in En. subst h.
+      unfold check_cost. cbn [app].
+      destruct (N.ltb_spec 0 val) as [Hp|Hp];
+        repeat match goal with |- context [N.ltb ?x ?y] => destruct (N.ltb_spec x y) end;
+        cbn [bind]; try reflexivity; try lia; (f_equal; lia).
+    - exfalso. apply nth_error_None in En.
+      assert (length HashTable.precomputed_hashes = 37%nat) as L by reflexivity. lia.
+  Qed.
+End Sha.
+
+Lemma sha256_nil_literal : sha256 [] = src_sha256_nil_literal.
+Proof. vm_compute. reflexivity. Qed.
+
+Theorem op_sha256_nofast_eq f i m :
+  op_sha256_nofast sha256 f i m = op_sha256 sha256 f (denote_input i) m.
+Proof. apply nofast_sha256_gen. exact sha256_nil_literal. Qed.
+
+Theorem op_sha256_fast_eq f i m : rinput_ok i = true ->
+  op_sha256_fast sha256 f i m = op_sha256 sha256 f (denote_input i) m.
+Proof. apply fast_sha256_gen; [exact sha256_nil_literal|exact precomputed_nth]. Qed.
+
+(* ---------------------------------------------------------------- op_multiply *)
+Lemma len_for_value_le5 v : len_for_value v <= 5.
+Proof. unfold len_for_value. repeat match goal with |- context [if ?c then _ else _] => destruct c end; lia. Qed.
+
+Lemma mul_loop_r_eq fast limits ncm sq t m : forall l, forallb rarg_ok l = true ->
+  forall cost total l0,
+  mul_loop_r fast limits ncm sq l cost total l0 m =
+  mul_loop limits ncm sq (denote_input (l, t)) cost total l0 m.
+Proof.
+  induction l as [|a l IH]; intros Hok cost total l0.
+  - rewrite denote_input_nil. destruct (denote_term_atom t) as [tb ->]. reflexivity.
+  - rewrite forallb_cons in Hok. apply andb_prop in Hok. destruct Hok as [Ha Hl].
+    rewrite denote_input_cons. cbn [mul_loop_r mul_loop].
+    destruct a as [v|b|pl pr]; cbn [denote_arg r_int_atom rarg_ok] in *.
+    + apply small_lt in Ha. rewrite (blen_small v Ha), int_of_bytes_of_int.
+      pose proof (len_for_value_le5 v) as L5.
+      destruct fast; cbn [bind];
+        replace (256 <? len_for_value v) with false by lia;
+        rewrite ?andb_false_r;
+        (destruct (check_cost _ m) as [[]|e]; cbn [bind]; [|reflexivity]);
+        (destruct (limits && negb ncm && (1024 <? limbs (total * Z.of_N v))); [reflexivity|]);
+        apply IH; exact Hl.
+    + destruct fast; cbn [bind];
+        (destruct (limits && negb ncm && (256 <? blen b)); [reflexivity|]);
+        (destruct (check_cost _ m) as [[]|e]; cbn [bind]; [|reflexivity]);
+        (destruct (limits && negb ncm && (1024 <? limbs (total * int_of_bytes b))); [reflexivity|]);
+        apply IH; exact Hl.
+    + destruct fast; reflexivity.
+Qed.
+
+Theorem op_multiply_r_eq fast f i m : rinput_ok i = true ->
+  op_multiply_r fast f i m = op_multiply f (denote_input i) m.
+Proof.
+  destruct i as [l t]. intros Hok. apply rinput_ok_args in Hok.
+  unfold op_multiply_r, op_multiply. cbn [fst].
+  destruct l as [|a l].
+  - rewrite denote_input_nil. destruct (denote_term_atom t) as [tb ->].
+    rewrite number_bytes_spec. reflexivity.
+  - rewrite forallb_cons in Hok. apply andb_prop in Hok. destruct Hok as [Ha Hl].
+    rewrite denote_input_cons.
+    rewrite (r_int_atom_denote a Ha).
+    destruct (denote_arg a) as [b|pl pr]; cbn [int_atom bind]; [|reflexivity].
+    destruct (f_limits f && negb (f_new_cost_model f) && (256 <? blen b)); [reflexivity|].
+    match goal with |- bind ?x _ = bind ?x _ => destruct x as [c|e]; cbn [bind]; [|reflexivity] end.
+    rewrite (mul_loop_r_eq fast _ _ _ t m l Hl).
+    match goal with |- bind ?x _ = bind ?x _ => destruct x as [[c' tot]|e]; cbn [bind]; [|reflexivity] end.
+    rewrite number_bytes_spec. reflexivity.
+Qed.
+
+Corollary op_multiply_fast_eq f i m : rinput_ok i = true ->
+  op_multiply_fast f i m = op_multiply f (denote_input i) m.
+Proof. apply op_multiply_r_eq. Qed.
+Corollary op_multiply_nofast_eq f i m : rinput_ok i = true ->
+  op_multiply_nofast f i m = op_multiply f (denote_input i) m.
+Proof. apply op_multiply_r_eq. Qed.
